@@ -405,3 +405,30 @@ Example C03_contract_nonvacuous :
   check_contract 10 3 MZero (XRat 1 8) 125 (-3) FExact = true /\
   check_contract 10 3 MZero (XRat 1 8) 12 (-2) (FInexact NoOp) = false.
 Proof. vm_compute. repeat split. Qed.
+
+From Dashu Require Import Float.DivParamsProof.
+From DashuGen Require Import FloatDivParams.
+
+(** the literals and the decision order of round_fract's closure, the pre-shrinking test of Context::div and the
+    scaling shifts of repr_div are re-read from float/src/round.rs / div.rs on every run *)
+Theorem C03_filter_source_constants :
+  (forall fl : Q -> Q, (forall x y, (x <= y)%Q -> (fl x <= fl y)%Q) -> (fl 1 == 1)%Q ->
+     (fl filter_c_gt_gen <= 1)%Q /\ (1 <= fl filter_c_lt_gen)%Q) /\
+  (forall B coarse_gt coarse_lt f k,
+     half_test_gen (coarse_gt f k) (coarse_lt f k) (2 * f ?= B ^ k) = half_test B coarse_gt coarse_lt f k).
+Proof. exact filter_source_constants. Qed.
+Print Assumptions C03_filter_source_constants.
+
+Theorem C03_div_source_constants :
+  (forall B ub lb p m s1 e1 s2 e2,
+     ctx_div B ub lb p m s1 e1 s2 e2 =
+     let '(s1', e1') :=
+       if div_shrink_cond_gen (s1 =? 0) (ub s1) (lb s2) p
+       then approx_val (repr_round B (div_shrink_prec_gen (dlen B s2) p) m s1 e1) else (s1, e1) in
+     repr_div B p m s1' e1' s2 e2) /\
+  (forall B p s1 s2,
+     repr_div_shift B p s1 s2 =
+     if Z.rem s1 s2 =? 0 then 0
+     else div_shift_gen (Z.quot s1 s2 =? 0) (dlen B s2) p (dlen B (Z.rem s1 s2)) (dlen B (Z.quot s1 s2))).
+Proof. exact div_source_constants. Qed.
+Print Assumptions C03_div_source_constants.
